@@ -237,6 +237,12 @@ class C17(Prop):
                 fh.write('\n'.join(self._csv_lines(case)) + '\n')
             res = {'events': self._canon_events(io.parse_csv(fn))}
             if k == 'csv2inv':
+                inv_fn = os.path.join(self.tmp, 'f.inv')
+                if os.path.exists(inv_fn):
+                    # an .inv of an earlier conversion is lying around and the new CSV carries an older time stamp (restored / copied file):
+                    # the conversion must still produce the data of the CSV that is there now
+                    t_inv = os.path.getmtime(inv_fn)
+                    os.utime(fn, (t_inv - 50, t_inv - 50))
                 io.csv2inv(fn)
                 with open(os.path.join(self.tmp, 'f.inv'), 'rb') as fh:
                     res['inv'] = self._canon_events(pickle.load(fh))
@@ -259,7 +265,16 @@ class C17(Prop):
                         joint['%s_%d' % (key, i + 1)] = one[key]
             blobs = [io._convert_mt_space_to_struct(joint, i + 1)[0] for i in range(len(case['recs']))]
         else:
-            blobs = [io._convert_mt_space_to_struct(self._dict_of(r))[0] for r in case['recs']]
+            blobs = []
+            self._rewrite = None
+            for r in case['recs']:
+                d_ = self._dict_of(r)
+                keep_ = np.array(d_['moment_tensor_space'], dtype=float).copy()
+                b1 = io._convert_mt_space_to_struct(d_)[0]
+                b2 = io._convert_mt_space_to_struct(d_)[0]         # the same result dictionary written a second time (another file name, a retry)
+                if b1 != b2 or not np.array_equal(keep_, np.asarray(d_['moment_tensor_space'], dtype=float)):
+                    self._rewrite = 'writing a result dictionary twice gives different bytes or changes the caller\'s tensors'
+                blobs.append(b1)
         fn = os.path.join(self.tmp, 'f.mt')
         with open(fn, 'wb') as fh:
             for b in blobs:
@@ -276,7 +291,7 @@ class C17(Prop):
                                 'conv': [float(o[key][i]) for key in ['g', 'd', 'k', 'h', 's', 'u', 'v', 'S1', 'D1', 'R1', 'S2', 'D2', 'R2']] if conv else []})
             recs.append({'total': int(o['total_number_samples']), 'converted': conv, 'lbe': o.get('ln_bayesian_evidence'),
                          'dkl': o.get('dkl'), 'samples': samples})
-        return {'words': [self._words_of_bytes(b) for b in blobs], 'back': recs}
+        return {'words': [self._words_of_bytes(b) for b in blobs], 'back': recs, 'rewrite': getattr(self, '_rewrite', None) if not case.get('multi') else None}
 
     # ------------------------------------------------------------------ model
     def requests(self, case, impl):
@@ -482,6 +497,8 @@ class C17(Prop):
         d = self._recs_diff(exp, impl['back'])
         if d:
             out.append(('binary-roundtrip', 'binary write/read changed the data: %s' % d, None))
+        if impl.get('rewrite'):
+            out.append(('binary-rewrite', impl['rewrite'], None))
         return out
 
     def nontrivial(self, case, impl):
